@@ -252,7 +252,21 @@ def exFailedCall : Prog :=
       E.var 0] }
 
 example : runProg guide exFailedCall 20 =
-    (.ok (.int 1), { locals := [], heap := [[.int 5]], out := [⟨2, some (.lst [.int 5])⟩] }) := by decide
+    (.ok (.int 1), { locals := [], heap := [[.int 5]], out := [⟨2, some (.toks (.list 0) [.str .lb, .int 5, .str .rb])⟩] }) := by decide
+
+/-- **F-C04-12 on the guide level**: an error raised by a `@display` function — here of an object
+two containers deep in the value being printed — is the error of the printing expression,
+unchanged (the code used to replace it by the string `failed to get display value`); the marker
+line is not printed, the `@display` calls made before it are visible. -/
+def exDisplay : Prog :=
+  { classes := [{ dispFn := some 0 }]
+    defs := [{ nparams := 1, nlocals := 1, body := .seq [.emit 9 none, .throw (.lit (.int 42))] }]
+    mainLocals := 2
+    main := .seq [.assign 0 (.mkList [.lit (.int 7), .mkList [.mkObj 0]]),
+      .try_ (.emit 1 (some (.var 0))) [(some .number, 1, .emit 2 (some (.var 1)))] none] }
+
+example : (runProg guide exDisplay 40).2.out =
+    [⟨9, none⟩, ⟨2, some (.toks (.int 42) [.int 42])⟩] := by decide
 
 /-- **uncaught_result**: an error that reaches the top of the program ends the run with an error
 result carrying the thrown value (the driver prints its message). -/
